@@ -422,12 +422,13 @@ def snapshot_world(env, ctx, snap, probes):
     xmax = snap.field_cell(ix["xmax"], "std::option::Option<u64>").val
     xmax_d = xmax.get_disc().term
     m = xmax.variant_cell("Some").val.field_cell("0", "u64").val.term
+    xmin = snap.field_cell(ix["xmin"], "u64").val.term
     act = ctx.uf("in:" + snap.field_cell(ix["active_txs"], "std::collections::HashSet<u64>").val.name, ["(_ BitVec 64)"], "Bool")
     abo = ctx.uf("in:" + snap.field_cell(ix["aborted_txs"], "std::collections::HashSet<u64>").val.name, ["(_ BitVec 64)"], "Bool")
     decl = "(declare-fun st ((_ BitVec 64)) (_ BitVec 3))\n"
     some = f"(= {xmax_d} {bvconst(1, 64)})"
     none = f"(= {xmax_d} {bvconst(0, 64)})"
-    A = [f"(or {some} {none})",
+    A = [f"(or {some} {none})", f"(bvule {xmin} {xid})",
          f"(= (st {xid}) {ACTIVE})", f"(not ({act} {xid}))", f"(not ({abo} {xid}))",
          f"(=> {some} (and (= (st {m}) {COMMITTED}) (bvult {m} {xid})))"]
     for u in probes + [m]:
@@ -435,6 +436,7 @@ def snapshot_world(env, ctx, snap, probes):
               f"(=> (not (= {u} {xid})) (= ({act} {u}) (= (st {u}) {ACTIVE})))",
               f"(=> (not (= {u} {xid})) (= ({abo} {u}) (= (st {u}) {ABORTED})))",
               f"(= (= (st {u}) {NOTSTARTED}) (bvugt {u} {xid}))",
+              f"(=> (= (st {u}) {ACTIVE}) (bvule {xmin} {u}))",   # xmin = smallest active id (own id if none)
               f"(=> (and {some} (= (st {u}) {COMMITTED})) (bvule {u} {m}))",
               f"(=> {none} (not (= (st {u}) {COMMITTED})))"]
     return dict(xid=xid, some=some, none=none, m=m, decl=decl, A=A, act=act, abo=abo)
@@ -1212,6 +1214,49 @@ def c13_cache_clear_keeps_capacity(env, ob):
     if chk[0]["verdict"] == "sat":
         return result(ob, "violated", failed=["cache_capacity_changed_by_clear"], cex={"what": "PageCache::clear leaves a capacity different from the configured one"}, **kw)
     return result(ob, "inconclusive", reason=chk[0]["verdict"], **kw)
+
+
+@obligation(id="C02.abort_marks_bitmap", also="C03,C09", funcs="TransactionCoordinator::abort",
+            bounds="every path of TransactionCoordinator::abort; callees uninterpreted", native="c02_abort_after_vacuum_is_persisted")
+def c02_abort_marks(env, ob):
+    """Every successful abort persists the aborted state (PageZero bitmap) - also when the in-memory entry is already
+    Aborted (Database::vacuum's abort_all marks entries aborted in memory only)."""
+    ctx, f, args, res = explore(env, COORD, "abort", sig=r"TransactionCoordinator, _2: u64")
+
+    def bad(path, rv):
+        if path.panics or rv is None:
+            return None
+        if not idx(path, r"mark_transaction_aborted$"):
+            return ("abort_ok_without_persisting_aborted_bit", ret_is_ok(rv))
+        return None
+    return trace_obligation(env, ob, ctx, res, bad, "abort() returns Ok without marking the transaction in the persistent bitmap")
+
+
+@obligation(id="C09.allocated_page_is_dirty", funcs="Pager::allocate_page",
+            bounds="every path of Pager::allocate_page<P>; callees uninterpreted", native="c09_recycled_root_survives_reopen")
+def c09_alloc_dirty(env, ob):
+    """A page handed out by allocate_page (fresh OR recycled from the free list) must be marked dirty, otherwise an object
+    created on it and left untouched is never written and the stale free-page image is read back after reopen."""
+    cands = [h for h, s_, e_ in env.mir.funcs if re.search(r"pager\.rs[^(]*::allocate_page(::<[^(]*>)?\(", h)]
+    if not cands:
+        raise Unsupported("Pager::allocate_page not found")
+    agg = None
+    for h in cands[:3]:
+        ctx = mirsmt.Ctx()
+        hs = [(hh, s_, e_) for hh, s_, e_ in env.mir.funcs if hh == h][0]
+        fn = mirsmt.Func(hs[0], env.mir.lines[hs[1] + 1:hs[2]])
+        ex = mirsmt.Executor(env.mir, ctx, models=dict(COMMON_MODELS), loop_bound=1)
+        a = [ctx.sym(n, t) for n, t in fn.params]
+        res = ex.run(fn, a)
+
+        def bad(path, rv):
+            if path.panics or rv is None:
+                return None
+            if not idx(path, r"mark_dirty$"):
+                return ("allocated_page_not_marked_dirty", ret_is_ok(rv))
+            return None
+        agg = merge(agg, trace_obligation(env, ob, ctx, res, bad, "allocate_page returns a page that was never marked dirty"))
+    return agg
 
 
 # ---------------------------------------------------------------------------------------------------------------------
